@@ -50,9 +50,16 @@ func els(s []int) []el {
 	return out
 }
 
+// clone hands a helper its argument as a callers often hold it: a window of a longer array. Behind the window (in its spare
+// capacity) sit two "ghost" elements, copies of the first and the middle element: a helper that reads up to cap() instead of
+// len() shows them in its result.
 func clone[T any](s []T) []T {
-	out := make([]T, len(s))
+	out := make([]T, len(s), len(s)+2)
 	copy(out, s)
+	if len(s) > 0 {
+		g := out[:len(s)+2]
+		g[len(s)], g[len(s)+1] = s[0], s[len(s)/2]
+	}
 	return out
 }
 
@@ -140,10 +147,14 @@ func randBounds(thorough bool) (maxLen, alpha int) {
 // (parallel segments, block copies, recursion limits).
 var bigSizes = []int{255, 256, 257, 1000, 1023, 1024, 1025, 2047, 2048, 2049, 4095, 4096, 4097, 5000, 8192, 10000, 16384, 20000}
 
-// bigSlice: n values a*i+b mod alpha (cheap to draw, and the three parameters shrink).
+// bigSlice: n values a*i+b mod alpha (cheap to draw, and the three parameters shrink); alpha 2..12, one in three 17..1025.
 func bigSlice(s pbt.Src) []int {
 	n := bigSizes[s.Intn(len(bigSizes))]
 	a, b, alpha := 1+s.Intn(7), s.Intn(7), 2+s.Intn(11)
+	if s.Intn(3) == 0 {
+		// many distinct values (groups, chunks of distinct content), each recurring
+		alpha = pbt.Pick(s, 17, 65, 257, 1025)
+	}
 	out := make([]int, n)
 	for i := range out {
 		out[i] = (a*i + b) % alpha
